@@ -99,6 +99,56 @@ def d1_purity(chk: Check, ef: Effects, cl: List[FuncInfo]) -> None:
                          "which creates missing nodes")
 
 
+def _counts_every_candidate(chk: Check, fi: FuncInfo, counter: str) -> None:
+    """The `counter < 1` test means "the segment matched nothing" only if
+    every candidate the dispatcher produced was counted, whatever branch
+    handled it; and nothing but the initialisation resets it."""
+    from sa.flow import Flow
+    chk.rule("C09-D2b", "the match counter is incremented on every path "
+             "through the handling of one candidate and is reset only by "
+             "its initialisation before the candidate loop", floor=2)
+    loops = [n for n in walk_local(fi.node) if isinstance(n, ast.For) and
+             "_get_nodes_by_path_segment" in src(n.iter)]
+    for loop in loops:
+        def transfer(stmt: ast.stmt, st, flow):
+            if isinstance(stmt, ast.AugAssign) and \
+                    src(stmt.target) == counter and \
+                    isinstance(stmt.op, ast.Add):
+                return [True]
+            return [st]
+
+        def branch(test: ast.AST, st, flow):
+            return [st], [st]
+        out = Flow(transfer, branch).run(loop.body, [False])
+        ends = list(out.fall) + list(out.continues) + list(out.breaks)
+        text = "for {} in <candidates of this segment>".format(
+            src(loop.target))
+        if all(ends) and ends:
+            chk.ok("C09-D2b", fi, loop, text,
+                   "{} end state(s) of the loop body, all counted".format(
+                       len(set(ends))))
+        else:
+            chk.fail("C09-D2b", fi, loop, text,
+                     "some path through the handling of a matched candidate "
+                     "does not count it: `{} < 1` then holds although the "
+                     "segment matched, and the creation path runs".format(
+                         counter))
+    inits = [n for n in walk_local(fi.node) if isinstance(n, ast.Assign) and
+             any(src(t) == counter for t in n.targets)]
+    for a in inits:
+        from sa.model import ancestors
+        in_loop = any(isinstance(x, (ast.For, ast.While))
+                      for x in ancestors(a) if x is not fi.node and
+                      any(y is x for y in walk_local(fi.node)))
+        text = src(a)
+        if src(a.value) == "0" and not in_loop:
+            chk.ok("C09-D2b", fi, a, text, "initialised once, outside a loop")
+        else:
+            chk.fail("C09-D2b", fi, a, text,
+                     "the match counter is re-assigned after candidates "
+                     "may have been counted")
+
+
 def d2_guarded_creation(chk: Check, ef: Effects) -> List[ast.AST]:
     prog = chk.prog
     chk.rule("C09-D2", "every document mutation in the optional-match driver "
@@ -112,12 +162,15 @@ def d2_guarded_creation(chk: Check, ef: Effects) -> List[ast.AST]:
     for n in walk_local(fi.node):
         if isinstance(n, ast.For) and \
                 "_get_nodes_by_path_segment" in src(n.iter):
-            for s in n.body:
+            for s in walk_local(n):
                 if isinstance(s, ast.AugAssign) and \
-                        isinstance(s.op, ast.Add) and src(s.value) == "1":
+                        isinstance(s.op, ast.Add) and src(s.value) == "1" \
+                        and isinstance(s.target, ast.Name):
                     counter = src(s.target)
+                    break
     if counter is None:
         raise AnalysisError("match counter of _get_optional_nodes not found")
+    _counts_every_candidate(chk, fi, counter)
     sites: List[ast.AST] = []
     items = []
     for site in mutation_sites(fi):
@@ -261,6 +314,70 @@ def d3_tail_only(chk: Check, ef: Effects) -> None:
                          "padded past (or short of) the requested index")
     if not found:
         raise AnalysisError("padding loop of _get_optional_nodes not found")
+    padding_fresh(chk, "C09-D3d", fi)
+
+
+def padding_fresh(chk: Check, rid: str, fi: FuncInfo) -> None:
+    """Every element appended to a document list inside a loop is built
+    inside that loop iteration: one object appended n times would make the
+    padded slots aliases of each other (a later write through one of them
+    changes all)."""
+    chk.rule(rid, "each element appended to a document list inside a loop "
+             "is built by a node-constructor call inside the same iteration "
+             "(padded slots are distinct objects)", floor=1)
+    from sa.model import ancestors
+    for c in walk_local(fi.node):
+        if not (isinstance(c, ast.Call) and
+                src(c.func).endswith("append_list_element") and
+                len(c.args) >= 2):
+            continue
+        loops = [a for a in ancestors(c) if isinstance(a, (ast.For, ast.While))
+                 and a is not fi.node]
+        loops = [a for a in loops if _inside(fi.node, a)]
+        if not loops:
+            continue
+        loop = loops[0]
+        val = c.args[1]
+        text = "append {} in `for ... in {}`".format(
+            src(val)[:30], src(getattr(loop, "iter", loop))[:40])
+        if isinstance(val, ast.Call):
+            chk.ok(rid, fi, c, text, "value is a call evaluated per step")
+            continue
+        if isinstance(val, ast.Constant):
+            chk.ok(rid, fi, c, text, "immutable constant")
+            continue
+        defs = [n for n in walk_local(fi.node)
+                if isinstance(n, ast.Assign) and len(n.targets) == 1 and
+                src(n.targets[0]) == src(val)]
+        inside = [d for d in defs if any(a is loop for a in ancestors(d))]
+        fresh = [d for d in inside if isinstance(d.value, ast.Call) and
+                 src(d.value.func).endswith(("build_next_node",
+                                             "wrap_type", "make_new_node"))]
+        body = loop.body
+        first = body[0] if body else None
+        dominates = bool(fresh) and any(
+            d is first or d in body and body.index(d) <
+            _index_of(body, c) for d in fresh)
+        if isinstance(val, ast.Name) and dominates and \
+                len(inside) == len(fresh):
+            chk.ok(rid, fi, c, text, "built at line {} inside the loop "
+                   "body before the append".format(fresh[0].lineno))
+        else:
+            chk.fail(rid, fi, c, text,
+                     "the appended object is not built inside the loop "
+                     "iteration: every padded slot would hold the same "
+                     "object")
+
+
+def _inside(fn: ast.AST, node: ast.AST) -> bool:
+    return any(n is node for n in walk_local(fn))
+
+
+def _index_of(body: List[ast.stmt], node: ast.AST) -> int:
+    for i, s in enumerate(body):
+        if any(n is node for n in ast.walk(s)):
+            return i
+    return -1
 
 
 def _next_sibling_calls(stmt: ast.stmt) -> List[ast.Call]:
